@@ -24,7 +24,7 @@ CONF = {
  "C08": {"gen": ["Iterators"], "streams": [("parse-tok", "full"), ("render-gen", "full")], "assume": ["Go map iteration order is the licensed variation; the correspondence stream iterates maps of one entry"]},
  "C09": {"gen": [], "streams": [("render-gen", "full")], "assume": []},
  "C10": {"gen": ["HelperKeys"], "streams": [("ctx-hist", "full")], "assume": []},
- "C11": {"gen": [], "streams": [("parse-tok", "full"), ("render-struct", "full")],
+ "C11": {"gen": ["EvalDispatch"], "streams": [("parse-tok", "full"), ("render-struct", "full")],
          "assume": ["PARTIAL: struct fields and pointers are modelled (Val.struct / Val.ptr, stream render-struct); methods, embedded structs and the index-then-member rebinding are reflected Go behaviour outside the model: for them navigation is decided by the oracle (self-describing data)"]},
  "C12": {"gen": [], "streams": [("render-gen", "full"), ("render-struct", "full")], "assume": ["the signature family of the model is the harness' closed helper family; the full signature product is enumerated by the oracle"]},
  "C13": {"gen": ["ConcFacts"], "streams": [("render-gen", "full")],
